@@ -47,6 +47,15 @@ TableOK == \A c \in 1..Len(QT) :
               /\ \E k \in 1..Len(A) : A[k].p = "1/2" /\ LLE(A[k].lo, Half) /\ LLE(Half, A[k].hi)
 ASSUME TableOK
 
+\* every reachable f32 output lies in the support (all 2^24 draws): finite, and inside the documented interval
+\* (Triangular: up to 4 ordinals beyond the bounds, as C03 states)
+SupOK(e) == /\ e.res = "Ok" /\ e.nan = 0 /\ e.pinf = 0 /\ e.ninf = 0 /\ e.hasfin
+            /\ CASE e.fam = "Pareto"     -> LLE(e.po[1], e.min)
+                 [] e.fam = "Weibull"    -> LLE(FZero, e.min)
+                 [] e.fam = "Frechet"    -> LLE(e.po[1], e.min)
+                 [] e.fam = "Triangular" -> LLE(e.po[1], LAdd(e.min, <<0, 0, 4>>)) /\ LLE(e.max, LAdd(e.po[2], <<0, 0, 4>>))
+                 [] OTHER -> TRUE
+
 \* monotone sequences of ordinals
 NonDecr(s) == \A i \in 1..(Len(s) - 1) : LLE(s[i], s[i + 1])
 NonIncr(s) == \A i \in 1..(Len(s) - 1) : LLE(s[i + 1], s[i])
